@@ -1282,6 +1282,11 @@ class TT():
 
         exclude = []
 
+        # a bool is no index (torch reads it as a mask)
+        entries = index if isinstance(index, tuple) else (index,)
+        if any(isinstance(i, (bool, np.bool_)) or (tn.is_tensor(i) and i.dtype == tn.bool) for i in entries):
+            raise InvalidArguments('Invalid slice.')
+
         if isinstance(index, tuple):
             # check if more than two Ellipsis are to be found.
             if index.count(Ellipsis) > 1 or (self.is_ttm and index.count(Ellipsis) > 0):
